@@ -1,6 +1,7 @@
 import itertools
 import random
 import threading
+import time
 
 import networkx as nx
 
@@ -33,6 +34,9 @@ def rendezvous(case_graph, nodes_A, workers, scheduler, timeout=12.0):
 
     def fn(n):
         if n not in A:
+            # long enough for the other workers to go idle inside queue.get(): they must be WOKEN when this node releases
+            # its successors (a wake-up per item, not per put call)
+            time.sleep(0.015)
             return
         with cond:
             state["in"] += 1
@@ -61,7 +65,13 @@ def parallel_runs(ctx, replay=None):
     for _ in range(n_cases):
         n = rng.randint(2, 9)
         shape = rng.random()
-        if shape < 0.3:      # a spine with one leaf per spine node: narrow generations, wide antichain
+        if shape < 0.25:     # a fan-out: one node releases k successors AT ONCE while the other workers sit idle in get()
+            k = rng.randint(3, 5)
+            pre = rng.randint(1, 2)
+            nodes = list(range(pre + k))
+            edges = [(i, i + 1) for i in range(pre - 1)] + [(pre - 1, pre + j) for j in range(k)]
+            case = {"n": pre + k, "nodes": nodes, "edges": edges}
+        elif shape < 0.45:   # a spine with one leaf per spine node: narrow generations, wide antichain
             k = rng.randint(2, 5)
             nodes = list(range(2 * k))
             edges = [(i, i + 1) for i in range(k - 1)] + [(i, k + i) for i in range(k)]
